@@ -582,14 +582,14 @@ def _parse_obs(obs):
     return o
 
 
-def _compare(m, obs, idx, op, exp, alloc_before, poolsize_prev, reserved_expected, stats):
+def _compare(m, obs, idx, op, exp, alloc_before, poolsize_prev, reserved_expected, stats, check_max=True):
     o = _parse_obs(obs)
     name = op[0]
     where = "after op %d `%s`" % (idx, " ".join(op))
     out = []
     # ---------- C01: handle state of every slot
     for k in "DMPKS":
-        for i in range(hm.KINDS[k]):
+        for i in range(m.kinds[k]):
             f = o[k].get(i)
             if f is None:
                 continue
@@ -607,7 +607,7 @@ def _compare(m, obs, idx, op, exp, alloc_before, poolsize_prev, reserved_expecte
     stats["max_handles_on_object"] = max(stats["max_handles_on_object"], hmax)
     # ---------- C02: memory contents, sizes, dtypes, offsets
     poolviews = {}
-    for i in range(hm.NM):
+    for i in range(m.kinds["M"]):
         f = o["M"].get(i)
         if not f or f[0] != "1":
             continue
@@ -647,7 +647,7 @@ def _compare(m, obs, idx, op, exp, alloc_before, poolsize_prev, reserved_expecte
                          (where, j, b, got[b], st.data[b]), idx)]
     # ---------- C03 / C04: pools
     for p in m.live("pool"):
-        slots = [i for i in range(hm.NP) if m.present["P"][i] and m.slot["P"][i] is p]
+        slots = [i for i in range(m.kinds["P"]) if m.present["P"][i] and m.slot["P"][i] is p]
         views = poolviews.get(p.id, [])
         if slots:
             f = o["P"][slots[0]]
@@ -706,7 +706,7 @@ def _compare(m, obs, idx, op, exp, alloc_before, poolsize_prev, reserved_expecte
         return out[:1]
     # ---------- C05: device accounting
     for d in m.live("dev"):
-        slots = [i for i in range(hm.ND) if m.present["D"][i] and m.slot["D"][i] is d]
+        slots = [i for i in range(m.kinds["D"]) if m.present["D"][i] and m.slot["D"][i] is d]
         if not slots:
             continue
         f = o["D"][slots[0]]
@@ -729,7 +729,7 @@ def _compare(m, obs, idx, op, exp, alloc_before, poolsize_prev, reserved_expecte
                     hi = max(hi, before + poolsize_prev.get(p.id, 0))
         m.maxseen[d.id] = lo
         m.maxbound[d.id] = hi
-        if not (lo <= mx <= hi):
+        if check_max and not (lo <= mx <= hi):
             return [("C05", "max-allocated", "%s: maxMemoryAllocated() is %d, expected %s" %
                      (where, mx, ("%d" % lo) if lo == hi else "between %d and %d" % (lo, hi)), idx)]
     # ---------- C01: live backend objects
@@ -771,13 +771,13 @@ def _check_end(m, blocks, idx):
     """After the history the harness destroys all memory/kernel/stream/pool handles, then all
     device handles.  Only deliberately detached (dontUseRefs) objects may remain."""
     for k in ("M", "K", "S", "P"):
-        for i in range(hm.KINDS[k]):
+        for i in range(m.kinds[k]):
             if m.present[k][i]:
                 hm.apply(m, ["del", k, str(i)])
     out = []
     o = _parse_obs(blocks[0][1])
     for d in m.live("dev"):
-        slots = [i for i in range(hm.ND) if m.present["D"][i] and m.slot["D"][i] is d]
+        slots = [i for i in range(m.kinds["D"]) if m.present["D"][i] and m.slot["D"][i] is d]
         if not slots:
             continue
         f = o["D"][slots[0]]
@@ -788,7 +788,7 @@ def _check_end(m, blocks, idx):
         want = _alloc_expected(m, d, {})
         if alloc != want:
             out.append(("C05", "allocated-at-end", "after every memory and pool handle is gone memoryAllocated() is %d, expected %d" % (alloc, want), idx))
-    for i in range(hm.ND):
+    for i in range(m.kinds["D"]):
         if m.present["D"][i]:
             hm.apply(m, ["del", "D", str(i)])
     o = _parse_obs(blocks[1][1])
